@@ -94,3 +94,10 @@ Fixpoint ord_chain (g : graph) (l : list nat) : Prop :=
   | a :: (b :: _) as r => ord_edge g a b /\ ord_chain g r
   | _ => True
   end.
+
+(* ---- C19 vocabulary (appended by proof-sched-live) ---- *)
+
+(* number of non-phony steps that have a state *)
+Definition count_wanted_nonphony (g : graph) (s : bstates) : nat :=
+  length (filter (fun i => negb (bstate_eqb (get_state s i) Unknown) && negb (b_phony (get_build g i)))
+                 (indices (g_builds g))).
